@@ -162,7 +162,9 @@ POOL = ["PAD -L", "PAD -R", "PAD", "PAD  -L", "PAD  -R", "PAD-L", "PAD L", "PAD 
         "A", "L", "R", "-L", " -L", "A -L", "A -R", "A  -L", "PAD 2", "PAD 2 L", "X.Y-L", "X.Y-R", "0", "..", ".",
         "PAD.WAV", "PAD.1", "PAD.2", "PAD.1-L", "PAD.1-R", "PAD.2-L", "PAD.2-R", "BRS+L", "BRS R", "BRS L", "BRS+R", "#FX-L", "0#FX-R", "0#FX-L", "#FX-R"]
 JUNK = ["nope", "A:/VOL/zzz", "A:/VOL/PAD/x/y", "A::", "B:", "A:/VOL//PAD", "\u00e9\u4e2d", "A:/VOL/\u00e9",
-        "A:/VOL/PAD -L -R", "../..", "A:/VOL/..", "A:/VOL/PAD\x00", "C:/VOL", "A:/VOLX", "A:/VO", "AA:"]
+        "A:/VOL/PAD -L -R", "../..", "A:/VOL/..", "A:/VOL/PAD\x00", "C:/VOL", "A:/VOLX", "A:/VO", "AA:",
+        # characters that mean something to string formatting
+        "100%", "A:/VOL/PAD 100%", "%s", "%d", "%(name)s", "50%% off", "A:/%s/x", "{0}", "{name}", "A:/VOL/{}"]
 
 
 def _small_names(tier, seed, shard=(0, 1)):
@@ -191,7 +193,7 @@ def _small_names(tier, seed, shard=(0, 1)):
     for c in cases:
         k += 1
         if k % shard[1] == shard[0]:
-            yield {"names": c, "junk": JUNK if k % 9 == 0 else JUNK[:3], **({"header_names": True} if k % 4 == 1 else {})}
+            yield {"names": c, "junk": JUNK if k % 9 == 0 else (JUNK[:3] + JUNK[16 + k % 10:17 + k % 10]), **({"header_names": True} if k % 4 == 1 else {})}
 
 
 @contract("e2e:names", props=["C05", "C06", "C10"], abstract=True)
@@ -219,10 +221,12 @@ def _build_cdda(inputs):
             tracks.append({"number": i + 1, "mode": "AUDIO", "title": t, "indices": [(1, (2 * i) // 4500, ((2 * i) // 75) % 60, (2 * i) % 75)]})
         n = len(tracks)
         binb = L.pcm_words(7, (2352 * 2 * n + inputs.get("tail", 0)) // 2 + 1)[:2352 * 2 * n + inputs.get("tail", 0)]
-        cue = L.cw.build_cue(tracks, style=inputs.get("style"))
+        # file NAMES are the user's: any letter case of the sheet's name (DISC.CUE, Disc.Cue, no suffix at all), a bin name with blanks
+        bin_name, cue_name = inputs.get("bin_name", "img.bin"), inputs.get("cue_name", "img.cue")
+        cue = L.cw.build_cue(tracks, bin_name=bin_name, style=inputs.get("style"))
         with L.Workdir() as w:
             sub = w.sub("in")
-            cue_path = L.cw.write_bin_cue(sub, binb, cue)
+            cue_path = L.cw.write_bin_cue(sub, binb, cue, bin_name=bin_name, cue_name=cue_name)
             dest = w.sub(os.path.join("a", "b", "dest"))
             before = set(L.read_tree(w.path))
             stdout, err = L.do_export(cue_path, dest)
@@ -311,7 +315,8 @@ def _small_cdda(tier, seed, shard=(0, 1)):
     for c in cases:
         k += 1
         if k % shard[1] == shard[0]:
-            yield {"titles": c, "tail": rnd.choice((0, 1, 3, 5)), "style": styles[k % len(styles)]}
+            names = [{}, {"cue_name": "DISC.CUE"}, {"bin_name": "sample disc 1.img"}, {"cue_name": "Disc.Cue", "bin_name": "My Disc.BIN"}, {"cue_name": "sheet.txt"}, {"cue_name": "tracklist"}]
+            yield {"titles": c, "tail": rnd.choice((0, 1, 3, 5)), "style": styles[k % len(styles)], **names[k % len(names)]}
     # long sheets (the text of a 99-track sheet is well over 4 KiB): every track still gets its own window
     if shard[0] == 0:
         for n in ((60,) if tier == "quick" else (60, 99)):
